@@ -127,6 +127,16 @@ def part_tables(ctx, quick):
         base = ["select name from . into %s" % group[0]]
         for v in case_variants(r, group[0]):
             same_parse(ctx, base, ["select name from . into %s" % v], "format:" + group[0])
+    # round vs curly brackets, in every position a bracket can take (incl. operands that start with * / %)
+    for q in ["select count(*) from .", "select name, count(*) from . group by name", "select lower(name) from .",
+              "select (size + 1) * 2 from .", "select name from . where (size > 1) and (size < 100)",
+              "select name from . where not (size > 1 or size < 0)", "select name from . where path = (/tmp/x)",
+              "select name from . where name like (%.rs)", "select name from . where size > (2 * (1 + 3))",
+              "select substr(upper(name), 1, 2) from .", "select min(size), max(size) from . where length(name) > (3)",
+              "select name from . order by (size * 2) desc", "select concat(name, (size)) from ."]:
+        same_parse(ctx, [q], [q.replace("(", "{").replace(")", "}")], "brackets")
+        spaced = " ".join(q.replace("(", " ( ").replace(")", " ) ").split())
+        same_parse(ctx, [spaced], [spaced.replace("(", "{").replace(")", "}")], "brackets-spaced")
     for kw in ("select", "from", "where", "and", "or", "not", "order", "by", "group", "limit", "into", "asc", "desc"):
         base_q = "select name, size from . where size > 1 and not name = 'x' or size < 0 group by name order by size desc, name asc limit 3 into csv"
         for v in case_variants(r, kw):
